@@ -15,21 +15,33 @@ MasksOf(ms) == LET n == Len(ms) IN
 \* be assigned to one of several outers - are emitted under both placements, the other cases under one of them.
 MultiOuterWithHole(gg) == Cardinality(Outers(gg)) >= 2 /\ HasHoles(gg)
 
-CaseRec(gg, ms, grid) ==
-  [g |-> gg, members |-> ms, masks |-> MasksOf(ms),
-   rtype |-> IF Idx(ms[Len(ms)].nodes[1]) % 2 = 1 THEN "multipolygon" ELSE "boundary",
-   norder |-> (Idx(ms[1].nodes[1]) + Len(ms)) % 3, grid |-> grid]
+\* near: the renderer puts two sibling rings (two outers, or two holes of one outer) next to each other so that one
+\* vertex of each - any vertex, hence also cut positions - lies a single coordinate step (1e-7 degree) from the other:
+\* distinct nodes of disjoint rings that are almost the same point.
+Siblings(gg) == \E r1, r2 \in 1 .. Len(gg) : r1 # r2 /\ gg[r1].parent = gg[r2].parent
 
-SimCase == LET n == Len(members) IN
+\* vers: a history of the relation with identical member lists.  vers[v][i] says whether member way i is reversed
+\* (a new way version with the nodes in opposite order) at relation version v; all versions are annotated in one call.
+CaseRec(gg, ms, grid, near) ==
+  [g |-> gg, members |-> ms, masks |-> MasksOf(ms), vers |-> MasksOf(ms),
+   rtype |-> IF Idx(ms[Len(ms)].nodes[1]) % 2 = 1 THEN "multipolygon" ELSE "boundary",
+   norder |-> (Idx(ms[1].nodes[1]) + Len(ms)) % 3, grid |-> grid, near |-> near]
+
+SimCase == LET n == Len(members)
+               gr == IF MultiOuterWithHole(g) THEN RandomElement(1 .. 3) # 3 ELSE RandomElement(BOOLEAN) IN
   [g |-> g, members |-> members,
    masks |-> <<NoneMask(n), AllMask(n), RandomElement([1 .. n -> BOOLEAN])>>,
+   vers |-> <<NoneMask(n), RandomElement([1 .. n -> BOOLEAN]), RandomElement([1 .. n -> BOOLEAN])>>,
    rtype |-> RandomElement({"multipolygon", "boundary"}), norder |-> RandomElement({0, 1, 2}),
-   grid |-> IF MultiOuterWithHole(g) THEN RandomElement(1 .. 3) # 3 ELSE RandomElement(BOOLEAN)]
+   grid |-> gr, near |-> ~gr /\ Siblings(g) /\ RandomElement(BOOLEAN)]
 
 Complete == cutr > Len(g) /\ pool = {}
 Write(c) == CSVWrite("%1$s", <<ToJson(c)>>, IOEnv.OUT)
+\* a deterministic half of the cases
+Half == (Idx(members[Len(members)].nodes[1]) + Len(members[1].nodes) + Len(members)) % 2 = 0
 EmitFile == Complete =>
-   IF MultiOuterWithHole(g) THEN Write(CaseRec(g, members, FALSE)) /\ Write(CaseRec(g, members, TRUE))
-   ELSE Write(CaseRec(g, members, (Idx(members[Len(members)].nodes[2]) + Len(members[1].nodes)) % 4 = 0))
+   IF MultiOuterWithHole(g) THEN Write(CaseRec(g, members, TRUE, FALSE)) /\ Write(CaseRec(g, members, FALSE, Half))
+   ELSE IF Siblings(g) THEN Write(CaseRec(g, members, FALSE, Half))
+   ELSE Write(CaseRec(g, members, (Idx(members[Len(members)].nodes[2]) + Len(members[1].nodes)) % 4 = 0, FALSE))
 EmitSim  == Complete => Write(SimCase)
 =============================================================================
